@@ -61,7 +61,7 @@ const c10SeededKey = 900001
 
 type c10Client struct {
 	set    func(k, v int) bool
-	get    func(k int) bool // true = the call yielded a value (loading kinds: no error)
+	get    func(k int) bool  // true = the call yielded a value (loading kinds: no error)
 	lget   func(k int) error // nil func when not a loading kind
 	del    func(k int)
 	close  func()
